@@ -10,7 +10,7 @@ class C35(vlib.Spec):
     model_vo = ["theories/Codec/Check.vo"]
     props_vo = "theories/Props/C35.vo"
     theorems = ["C35_roundtrip", "C35_prefix_free", "C35_frames_do_not_bleed", "C35_tagless_roundtrip",
-                "C35_demux_routing", "C35_delivery"]
+                "C35_demux_routing", "C35_delivery", "C35_demux_ready_all", "C35_delivery_under_backpressure"]
     crate, group, binary = "h_codec", "hydro", "h_codec"
     imports = "From HV Require Import Codec.Check."
     level = "proof"
@@ -28,7 +28,8 @@ class C35(vlib.Spec):
                    "TaglessMemberId is exercised in its Legacy{raw_id:u32} variant only"]
     rule = ("random nested type codes (depth <= 3/4) with edge-biased values; truncated/extended/random malformed frames; "
             "derive-based RaftRpc<u64,Replica>, LeaderView, LogEntry<String>, MemberId; demux_map runs incl. missing keys; "
-            "whole send->demux->receive runs. non-trivial = value with at least one constructor below the root, or a "
+            "whole send->demux->receive runs; demux_map over scripted back-pressured one-slot member sinks (2-4 members, random "
+            "Ready/Pending scripts) driven by a contract-following sender. non-trivial = value with at least one constructor below the root, or a "
             "non-empty item list, or a malformed frame")
 
     # The `emb` cases run the GENERATED send/receive closures: a cluster->cluster `demux(.., TCP.fail_stop()
@@ -75,6 +76,8 @@ class C35(vlib.Spec):
         k = case["k"]
         if k == "val":
             return codec.depth_of(case["ty"]) >= 1 or case["ty"] in ("Str", "I64")
+        if k == "bp":
+            return any(False in sc for _, sc in case["init"])
         if k in ("demux", "wire", "emb"):
             return len(case["items"]) > 0
         return True
@@ -106,6 +109,9 @@ class C35(vlib.Spec):
                 d["dec_ok"] += "v" in r
             if k == "demux":
                 d["demux_panics"] += "panic" in r
+            if k == "bp":
+                d["bp_polls"] = d.get("bp_polls", 0) + len(r.get("polls", []))
+                d["bp_pending_polls"] = d.get("bp_pending_polls", 0) + sum(1 for b in r.get("polls", []) if not b)
         return d
 
 
